@@ -36,7 +36,7 @@ from .geom import Geometry
 from .math import affine_from_axis, maybe_int, resolution_from_affine
 from .overlap import compute_output_geobox
 from .roi import roi_is_empty
-from .types import Resolution, SomeResolution, SomeShape, xy_
+from .types import Resolution, SomeResolution, SomeShape, resxy_, xy_
 
 # pylint: disable=import-outside-toplevel
 # pylint: disable=too-many-lines
@@ -497,6 +497,7 @@ def _extract_transform(
         return _extract_geo_transform(crs_coord)
 
     _yy, _xx = (src[dim] for dim in sdims)
+    _pix2world = None if gcp else _xx.encoding.get("_transform", None)
 
     # First try to compute from 1-D X/Y coords
     try:
@@ -504,20 +505,25 @@ def _extract_transform(
     except ValueError:
         # This can fail when any dimension is shorter than 2 elements
         # Figure out fallback resolution if possible and try again
-        if crs_coord is None:
-            return None
-        if (original_transform := _extract_geo_transform(crs_coord)) is None:
-            return None
+        if _pix2world is not None:
+            # axis labels are in pixel space: one pixel per step
+            fallback_resolution = resxy_(1, 1)
+        else:
+            if crs_coord is None:
+                return None
+            if (original_transform := _extract_geo_transform(crs_coord)) is None:
+                return None
+            fallback_resolution = resolution_from_affine(original_transform)
         try:
             transform = affine_from_axis(
                 _xx.values,
                 _yy.values,
-                resolution_from_affine(original_transform),
+                fallback_resolution,
             )
         except ValueError:
             return None
 
-    if not gcp and (_pix2world := _xx.encoding.get("_transform", None)) is not None:
+    if _pix2world is not None:
         # non-axis aligned geobox detected
         # adjust transform
         #  world <- pix' <- pix
